@@ -648,6 +648,7 @@ func (g *TransferGen) Run(nOps int) {
 		g.RunPortEdit()
 	}
 	if g.relay {
+		g.RunRelayRoundTrip()
 		g.RunRelayUnknownDest()
 	}
 }
@@ -789,6 +790,17 @@ func (g *TransferGen) sendOracle(c *tibctesting.TestChain, p *packettypes.Packet
 	if res.Code == 0 && p == nil {
 		g.w.hit("C09", "transfer-accepted-but-no-packet-was-sent")
 		g.w.hit("C19", "transfer-accepted-but-no-packet-was-sent")
+	}
+	if res.Code == 0 && p != nil {
+		// the next hop (the relay chain if one is named, else the destination) must be a chain this
+		// chain has a light client of
+		hop := p.DestinationChain
+		if p.RelayChain != "" {
+			hop = p.RelayChain
+		}
+		if g.w.ClientLatest(c, hop) == 0 {
+			g.w.hit("C09", fmt.Sprintf("send-accepted-although-no-light-client-of-the-next-hop hop=%s %s", hop, fkey(*p)))
+		}
 	}
 }
 
@@ -985,6 +997,104 @@ func (g *TransferGen) RunRelayUnknownDest() {
 		g.stat("script.relay-unknown-dest." + strings.SplitN(w.AckTok(t.ack), "|", 2)[0])
 	}
 	g.tokenOracles()
+}
+
+// RunRelayRoundTrip: a token goes from chain 0 to chain 2 through relay chain 1 and comes back the
+// same way. End to end the effects must equal those of a direct transfer: the origin holds the
+// original again (same class, id / amount, nothing left in escrow), no voucher remains on the
+// far side, and the relay chain's token state never changes.
+func (g *TransferGen) RunRelayRoundTrip() {
+	w := g.w
+	if len(w.Chains) < 3 || !g.relay {
+		return
+	}
+	a, r, c := 0, 1, 2
+	A, R, C := g.chain(a), g.chain(r), g.chain(c)
+	if w.SetRules(R, []string{"*,*,*"}) != nil {
+		return
+	}
+	relayBefore := ""
+	if g.mt {
+		relayBefore = fmt.Sprint(mtState(R))
+		class := w.MtIssue(A, 0)
+		if class == "" {
+			return
+		}
+		id, res := w.MtMint(A, 0, class, "", 8, w.Acct(a, 1).String())
+		g.mtAfterMint(A, class, id, 8, res)
+		if res.Code != 0 {
+			return
+		}
+		had := map[string]bool{}
+		for _, cl := range g.mtClasses(c) {
+			had[cl] = true
+		}
+		t := g.mtXfer(a, 1, class, id, w.Acct(c, 1).String(), C.ChainName, R.ChainName, 5)
+		if t == nil || !g.deliver(t) {
+			w.hit("C11", "relayed-transfer-refused-although-the-rules-admit-it "+A.ChainName+"->"+C.ChainName)
+			return
+		}
+		vclass := ""
+		for _, cl := range g.mtClasses(c) {
+			if !had[cl] {
+				vclass = cl
+			}
+		}
+		if vclass == "" {
+			return
+		}
+		t2 := g.mtXfer(c, 1, vclass, id, w.Acct(a, 2).String(), A.ChainName, R.ChainName, 5)
+		if t2 == nil || !g.deliver(t2) {
+			w.hit("C11", "relayed-return-refused "+C.ChainName+"->"+A.ChainName)
+			return
+		}
+		g.tokenOracles()
+		ak := A.App.MtKeeper
+		modA := sdk.MustAccAddressFromBech32(w.addrOfModule("MT"))
+		if got := ak.GetBalance(A.GetContext(), class, id, w.Acct(a, 2)); got != 5 {
+			w.hit("C11", fmt.Sprintf("relayed-round-trip-differs-from-direct: receiver-on-origin-holds-%d-units-of-the-original-class-expected-5", got))
+		}
+		if got := ak.GetBalance(A.GetContext(), class, id, modA); got != 0 {
+			w.hit("C11", fmt.Sprintf("relayed-round-trip-differs-from-direct: %d-units-still-escrowed-on-the-origin", got))
+		}
+		if fmt.Sprint(mtState(R)) != relayBefore {
+			w.hit("C11", "relay-chain-token-state-changed-by-a-relayed-round-trip")
+		}
+	} else {
+		relayBefore = fmt.Sprint(sortedOwners(nftOwners(R)))
+		class, id := "relayround", "tok1"
+		if w.NftIssue(A, 0, class, false).Code != 0 {
+			return
+		}
+		g.nftAfterMint(A, class, id, w.NftMint(A, 0, class, id, "uri", w.Acct(a, 1).String()))
+		t := g.nftXfer(a, 1, class, id, w.Acct(c, 1).String(), C.ChainName, R.ChainName)
+		if t == nil || !g.deliver(t) {
+			w.hit("C11", "relayed-transfer-refused-although-the-rules-admit-it "+A.ChainName+"->"+C.ChainName)
+			return
+		}
+		vclass := g.voucherOn(c, id, w.Acct(c, 1).String())
+		if vclass == "" {
+			return
+		}
+		t2 := g.nftXfer(c, 1, vclass, id, w.Acct(a, 2).String(), A.ChainName, R.ChainName)
+		if t2 == nil || !g.deliver(t2) {
+			w.hit("C11", "relayed-return-refused "+C.ChainName+"->"+A.ChainName)
+			return
+		}
+		g.tokenOracles()
+		if o := nftOwners(A)[pos{A.ChainName, class, id}]; o != w.Acct(a, 2).String() {
+			w.hit("C11", "relayed-round-trip-differs-from-direct: the-original-is-not-back-with-the-receiver-on-the-origin owner="+w.CanonAddr(o))
+		}
+		for k, o := range nftOwners(C) {
+			if k.id == id && k.class == vclass {
+				w.hit("C11", "relayed-round-trip-differs-from-direct: the-voucher-still-exists-on-the-far-chain owner="+w.CanonAddr(o))
+			}
+		}
+		if fmt.Sprint(sortedOwners(nftOwners(R))) != relayBefore {
+			w.hit("C11", "relay-chain-token-state-changed-by-a-relayed-round-trip")
+		}
+	}
+	g.stat("script.relay-round-trip")
 }
 
 // RunPortEdit: the port named by a packet is not covered by the packet commitment either, and
